@@ -569,7 +569,8 @@ def _graph_table(prog: Program, ctx: Ctx) -> None:
     from sa.tables.aliasgraphs import graphs
 
     thorough = ctx.tier == "thorough"
-    work = [(g, o) for g in graphs(3) for o in (itertools.permutations(range(3)) if thorough else ((0, 1, 2), (2, 1, 0)))]
+    work = [(g, o) for g in graphs(3) for o in (itertools.permutations(range(3)) if thorough else
+                                                ((0, 1, 2),) if any(d[0] == "through" for d in g) else ((0, 1, 2), (2, 1, 0)))]
     if thorough:
         work += [(g, o) for g in graphs(4) for o in ((0, 1, 2, 3), (3, 2, 1, 0))]
     jobs = min(16 if thorough else 4, os.cpu_count() or 4)
